@@ -196,6 +196,9 @@ pub enum Pat {
     /// `S { f: p, … }` or `S { f: p, .. }`
     Struct(Vec<(String, Pat)>, bool),
     Or(Vec<Pat>),
+    /// a u8 literal written with its suffix (`255u8`): typed `Pattern::U8` in the compiler, while the
+    /// unsuffixed `Int` becomes `Pattern::Numeric`
+    IntS(u64),
 }
 
 impl Pat {
@@ -205,6 +208,7 @@ impl Pat {
             Pat::Var(n) => n.clone(),
             Pat::Bool(b) => b.to_string(),
             Pat::Int(n) => n.to_string(),
+            Pat::IntS(n) => format!("{n}u8"),
             Pat::Tuple(ps) => format!("({})", ps.iter().map(|p| p.print()).collect::<Vec<_>>().join(", ")),
             Pat::Enum(v, None) => format!("E::{v}"),
             Pat::Enum(v, Some(p)) => format!("E::{v}({})", p.print()),
@@ -225,7 +229,7 @@ impl Pat {
             (Pat::Wild, _, _) | (Pat::Var(_), _, _) => true,
             (Pat::Or(ps), _, _) => ps.iter().any(|p| p.matches(v, sh)),
             (Pat::Bool(b), Val::B(x), _) => b == x,
-            (Pat::Int(n), Val::U(x), _) => *n == *x as u64,
+            (Pat::Int(n), Val::U(x), _) | (Pat::IntS(n), Val::U(x), _) => *n == *x as u64,
             (Pat::Tuple(ps), Val::T(vs), Shape::Tuple(ss)) => {
                 ps.len() == vs.len() && ps.iter().zip(vs).zip(ss).all(|((p, v), s)| p.matches(v, s))
             }
@@ -251,7 +255,7 @@ impl Pat {
     pub fn is_catch_all_like_compiler(&self) -> bool {
         match self {
             Pat::Wild | Pat::Var(_) => true,
-            Pat::Bool(_) | Pat::Int(_) | Pat::Enum(..) => false,
+            Pat::Bool(_) | Pat::Int(_) | Pat::IntS(_) | Pat::Enum(..) => false,
             Pat::Tuple(ps) => ps.iter().all(|p| p.is_catch_all_like_compiler()),
             Pat::Struct(fs, _) => fs.iter().all(|(_, p)| p.is_catch_all_like_compiler()),
             Pat::Or(ps) => ps.iter().any(|p| p.is_catch_all_like_compiler()),
@@ -261,7 +265,7 @@ impl Pat {
     pub fn has_var(&self) -> bool {
         match self {
             Pat::Var(_) => true,
-            Pat::Wild | Pat::Bool(_) | Pat::Int(_) => false,
+            Pat::Wild | Pat::Bool(_) | Pat::Int(_) | Pat::IntS(_) => false,
             Pat::Tuple(ps) | Pat::Or(ps) => ps.iter().any(|p| p.has_var()),
             Pat::Enum(_, a) => a.as_ref().map(|p| p.has_var()).unwrap_or(false),
             Pat::Struct(fs, _) => fs.iter().any(|(_, p)| p.has_var()),
@@ -284,7 +288,7 @@ impl Pat {
     pub fn irrefutable(&self) -> bool {
         match self {
             Pat::Wild | Pat::Var(_) => true,
-            Pat::Bool(_) | Pat::Int(_) | Pat::Enum(..) => false,
+            Pat::Bool(_) | Pat::Int(_) | Pat::IntS(_) | Pat::Enum(..) => false,
             Pat::Tuple(ps) => ps.iter().all(|p| p.irrefutable()),
             Pat::Struct(fs, _) => fs.iter().all(|(_, p)| p.irrefutable()),
             Pat::Or(ps) => ps.iter().any(|p| p.irrefutable()),
@@ -306,7 +310,7 @@ impl Pat {
                     || refutable.iter().any(|p| p.matches_dropping_irrefutable_or_alternatives(v, sh))
             }
             (Pat::Bool(b), Val::B(x), _) => b == x,
-            (Pat::Int(n), Val::U(x), _) => *n == *x as u64,
+            (Pat::Int(n), Val::U(x), _) | (Pat::IntS(n), Val::U(x), _) => *n == *x as u64,
             (Pat::Tuple(ps), Val::T(vs), Shape::Tuple(ss)) => ps
                 .iter()
                 .zip(vs)
@@ -341,6 +345,8 @@ pub struct Features {
     pub rest: bool,
     /// some struct pattern lists its fields in an order other than the declaration order
     pub reordered: bool,
+    /// integer literals carry their type suffix
+    pub suffixed: bool,
 }
 
 pub fn features(arms: &[Pat]) -> Features {
@@ -364,10 +370,23 @@ pub fn features(arms: &[Pat]) -> Features {
                     f.reordered = true;
                 }
             }
+            Pat::IntS(_) => f.suffixed = true,
             _ => {}
         });
     }
     f
+}
+
+/// The same pattern with every integer literal written with its `u8` suffix.
+pub fn suffix_ints(p: &Pat) -> Pat {
+    match p {
+        Pat::Int(n) => Pat::IntS(*n),
+        Pat::Tuple(ps) => Pat::Tuple(ps.iter().map(suffix_ints).collect()),
+        Pat::Or(ps) => Pat::Or(ps.iter().map(suffix_ints).collect()),
+        Pat::Enum(v, a) => Pat::Enum(v.clone(), a.as_ref().map(|q| Box::new(suffix_ints(q)))),
+        Pat::Struct(fs, r) => Pat::Struct(fs.iter().map(|(f, q)| (f.clone(), suffix_ints(q))).collect(), *r),
+        other => other.clone(),
+    }
 }
 
 impl Features {
@@ -380,6 +399,9 @@ impl Features {
         // declaration order" (fields omitted with `..`, or listed in another order)
         if self.rest || self.reordered {
             v.push("struct-pattern-omits-or-reorders-fields");
+        }
+        if self.suffixed {
+            v.push("suffixed-literals");
         }
         if v.is_empty() {
             "plain".to_string()
